@@ -226,6 +226,9 @@ def apply_pem_fault(r, pem, kind, der_fault=None):
         return pem.replace(b"\n", b"\r\n"), "CRLF line ends"
     if kind == "extra_text":
         pre = r.choice([b"Comment: x\n", b"junk\n", b"\n\n", b"-----\n",
+                        b"Comment: exported by: backup job\n",
+                        b"Proc-Type: 4,ENCRYPTED\nDEK-Info: AES-128-CBC,00\n\n",
+                        b"a: b: c\n", b": \n", b"key:value\n",
                         b"-----BEGIN EC PARAMETERS-----\nBgUrgQQAIQ==\n"
                         b"-----END EC PARAMETERS-----\n"])
         return (pre + pem) if r.random() < 0.5 else (pem + pre), "extra text"
